@@ -1,16 +1,12 @@
 #!/bin/sh
-# usage: mutant_recheck.sh <n> [property...] — applies mutation n to a scratch copy and runs only the checker (binary $WTCHECK or bin/wtcheck)
-n=$1; shift
-props=${*:-C01 C02 C03 C04 C05 C06 C07 C08 C09 C10 C11 C12 C13 C14 C15 C16 C17 C18 C19 C20}
+# usage: mutant_recheck.sh <n> — applies mutation n (set $MUTATE_SET) to a scratch copy and runs only the checker
+# (all properties on one load; binary $WTCHECK or bin/wtcheck). VERBOSE=1 prints the reports.
+n=$1
 bin=${WTCHECK:-/verif/bin/wtcheck}
 d=$(mktemp -d /tmp/wtmr.XXXXXX); trap 'rm -rf "$d"' EXIT
 git -C /repo archive HEAD | tar -x -C "$d"
 desc=$(/verif/bin/mutate apply "$d" $n)
-det=""
-for p in $props; do
-  if ! $bin -property $p -repo "$d" -no-controls -evidence-dir "$d/.ev" >"$d/.out" 2>&1; then
-    det="$det $p"
-    [ -n "$VERBOSE" ] && grep -E 'VIOLATED|UNDECIDED|panic' "$d/.out" | cut -c1-300
-  fi
-done
-if [ -n "$det" ]; then echo "$desc	detected:$det"; else echo "$desc	SURVIVED"; fi
+$bin -all -repo "$d" >"$d/.out" 2>&1
+det=$(grep -E '^(C[0-9][0-9] FAIL|LOAD-FAILED)' "$d/.out" | cut -d' ' -f1 | sort -u | tr '\n' ' ')
+[ -n "$VERBOSE" ] && grep -E ' FAIL |LOAD-FAILED|panic' "$d/.out" | cut -c1-300
+if [ -n "$det" ]; then echo "$desc	detected: $det"; else echo "$desc	SURVIVED"; fi
